@@ -59,6 +59,7 @@ type scriptDriver struct {
 	failSend  int // fail the k-th SendProbe (1-based), 0 = never
 	nSend     int
 	sendErr   error
+	sendDur   time.Duration // how long the failing SendProbe stays in flight before it returns its error
 }
 
 func newScriptDriver(parallel bool, script []scriptEntry) *scriptDriver {
@@ -80,6 +81,7 @@ func (d *scriptDriver) SendProbe(ttl uint8) error {
 	d.nSend++
 	if d.failSend != 0 && d.nSend == d.failSend {
 		d.mu.Unlock()
+		time.Sleep(d.sendDur)
 		return d.sendErr
 	}
 	now := time.Now()
